@@ -1,3 +1,4 @@
+#![allow(dead_code)]
 //! Correspondence harness: generates inputs, runs the real anthem code in-process, and writes
 //! one request line (for the Lean model driver) and one implementation-result line per case.
 mod generate;
